@@ -61,6 +61,13 @@ func printManifest() {
 			"technique":           s.Technique,
 		})
 	}
+	na := append([]map[string]string{}, notApplicable...)
+	for i := 1; i <= 20; i++ {
+		id := fmt.Sprintf("C%02d", i)
+		if _, ok := specs[id]; !ok {
+			na = append(na, map[string]string{"property_id": id, "reason": "no check registered in this revision of /verif (the technique applies; the monitor is not built yet) - not claimed"})
+		}
+	}
 	m := map[string]any{
 		"version":   1,
 		"setup_cmd": "/verif/run build",
@@ -76,7 +83,7 @@ func printManifest() {
 				"kind_free_text": "runtime monitoring: driver + child processes running the real gopacket code under generated/hostile/stress workloads with the Go race detector, checkptr, read-only input pages, CPU/heap watchdogs and hand-written reference-model / differential / history oracles (incl. porcupine)"},
 		},
 		"checks":         checks,
-		"not_applicable": notApplicable,
+		"not_applicable": na,
 		"notes":          "All checks are runtime monitors over executions of the real code; nothing is proved. known findings: /verif/known_findings.txt. Design: /verif/DESIGN.md.",
 	}
 	b, _ := json.MarshalIndent(m, "", " ")
